@@ -220,7 +220,7 @@ def fmt_imm(v):
 
 
 class Case:
-    __slots__ = ("form", "choice", "emit", "ref", "expect", "ev", "dev", "nwords")
+    __slots__ = ("form", "choice", "emit", "ref", "expect", "ev", "dev", "nwords", "flags")
 
     def __init__(self):
         self.emit = None
@@ -229,6 +229,7 @@ class Case:
         self.ev = []
         self.dev = ()
         self.nwords = 1
+        self.flags = {}
 
 
 class R:
@@ -239,6 +240,7 @@ class R:
         self.ref_ok = True
         self.expect = []
         self.ev = []
+        self.flags = {}
         self.mn_emit = None
         self.mn_ref = None
 
@@ -275,21 +277,21 @@ class FormPlan:
         return name
 
     def n_cases(self, k):
-        n = 1
+        """Number of assignments with at most k deviating slots (sum of elementary symmetric polynomials)."""
         sizes = [len(v) - 1 for _, v in self.slots]
-        if k >= 1:
-            n += sum(sizes)
-        if k >= 2:
-            s = sum(sizes)
-            n += (s * s - sum(x * x for x in sizes)) // 2
-        return n
+        k = min(k, len(sizes))
+        e = [1] + [0] * k
+        for x in sizes:
+            for j in range(k, 0, -1):
+                e[j] += e[j - 1] * x
+        return sum(e)
 
     def cases(self, k):
         """All choices (tuples of value indexes) with at most k deviations; default first."""
         n = len(self.slots)
         base = [0] * n
         yield tuple(base)
-        for d in range(1, k + 1):
+        for d in range(1, min(k, n) + 1):
             for pos in itertools.combinations(range(n), d):
                 ranges = [range(1, len(self.slots[p][1])) for p in pos]
                 for combo in itertools.product(*ranges):
@@ -315,6 +317,7 @@ class FormPlan:
         c.ref = (r.mn_ref + ((" " + ", ".join(r.ref)) if r.ref else "")) if r.ref_ok else None
         c.expect = r.expect
         c.ev = r.ev
+        c.flags = r.flags
         return c
 
     def describe(self, choice):
@@ -340,8 +343,9 @@ def find_field(form, suf, prefer):
     return None
 
 
-def plan_form(form, names):
-    """names: set of mnemonics the assembler under test knows."""
+def plan_form(form, names, wide=False, siblings=()):
+    """names: set of mnemonics the assembler under test knows.  wide: every register id 0..30 / 0..31 in the alphabets.
+    siblings: the other db forms of the same mnemonic (their arrangement lists tell which arrangements exist at all)."""
     if "SVE" in form["category"] or "SME" in form["category"]:
         raise Unsupported("SVE/SME form (AsmJit has no Z/P registers)")
     name = form["name"]
@@ -350,11 +354,16 @@ def plan_form(form, names):
     if m:
         if m.group(1) not in names:
             raise Unsupported("mnemonic unknown to the assembler")
-        cs = p.slot("cc", ["ne"] + CONDS)
+        p.slot("cc", ["ne"] + CONDS)
 
         def mn(ctx, r, base=m.group(1)):
             r.mn_emit = "%s.%s" % (base, ctx["cc"])
             r.mn_ref = "%s.%s" % (base, ctx["cc"])
+            if base == "b" and ctx["cc"] == "al":
+                # CondCode::kAL is AsmJit's "no condition": the instruction id b|AL *is* the plain B
+                r.mn_ref = "b"
+                r.flags["plain_b"] = True
+                return
             r.expect.append(("cond", COND_ENC[ctx["cc"]]))
         p.renderers.append(mn)
     elif name not in names:
@@ -369,7 +378,7 @@ def plan_form(form, names):
             raise Unsupported("operand syntax '%s'" % t)
         s["tok"] = t
         specs.append(s)
-    B = Builder(p, form, specs)
+    B = Builder(p, form, specs, wide, siblings)
     B.build()
     return p
 
@@ -379,10 +388,13 @@ def plan_form(form, names):
 # --------------------------------------------------------------------------------------------------------------------
 
 class Builder:
-    def __init__(self, plan, form, specs):
+    def __init__(self, plan, form, specs, wide=False, siblings=()):
+        self.siblings = siblings
         self.p = plan
         self.form = form
         self.specs = specs
+        self.gp_ids = list(range(31)) if wide else GP_IDS
+        self.vec_ids = list(range(32)) if wide else VEC_IDS
         self.attrs = form.get("attrs", {})
         self.name = form["name"]
         self.fields = form["fields"]
@@ -419,7 +431,26 @@ class Builder:
         if "t" in uses:
             if "t" not in a:
                 raise Unsupported(".t operand without arrangement list")
-            self.tslot = self.p.slot("t", [x for x in a["t"].split() if x != "~"])
+            own = [x for x in a["t"].split() if x != "~"]
+            # arrangements no form of this mnemonic (same operand count) lists: must be refused
+            nops = len(self.specs)
+            exist = set(own)
+            for f in self.siblings:
+                sig = form_signature(f)
+                if len(split_top(sig) if sig else []) != nops:
+                    continue
+                t = f.get("attrs", {}).get("t", "")
+                exist.update(x for x in t.split() if "." not in x)
+                exist.update(re.findall(r"\.(\d+[BHSD])\b", sig))
+            self.t_exist = exist
+            # ("1D" is left out: AsmJit spells it as the scalar register d<N>, which usually is a valid scalar form)
+            foreign = [x for x in ARR_ALL if x not in exist and x != "1D"]
+            self.tslot = self.p.slot("t", own + foreign)
+            if foreign:
+                def tfn(ctx, r, exist=exist):
+                    if ctx["t"] not in exist:
+                        r.ev.append("arr")
+                self.p.renderers.append(tfn)
         if "ta" in uses or "tb" in uses:
             if "ta.tb" in a:
                 self.tslot2 = self.p.slot("ta.tb", [x for x in a["ta.tb"].split() if "." in x])   # '~' = no such size
@@ -485,7 +516,7 @@ class Builder:
         if field is None:
             raise Unsupported("no template field for '%s'" % s["tok"])
         d = self.gp_default()
-        sl = p.slot("r%d" % i, [d] + GP_IDS + ["zr", "sp"] + GP_BAD)
+        sl = p.slot("r%d" % i, [d] + self.gp_ids + ["zr", "sp"] + GP_BAD)
         ext_slot = None
         if s["w"] == "R":
             if nxt is not None and nxt["k"] == "shift" and "extend" in nxt["ops"]:
@@ -521,7 +552,7 @@ class Builder:
         if field is None:
             raise Unsupported("no template field for '%s'" % s["tok"])
         d = self.vec_default()
-        sl = p.slot("v%d" % i, [d] + VEC_IDS + VEC_BAD)
+        sl = p.slot("v%d" % i, [d] + self.vec_ids + VEC_BAD)
 
         def fn(ctx, r, s=s, sl=sl, field=field):
             v = ctx[sl]
@@ -577,7 +608,7 @@ class Builder:
         if field is None:
             raise Unsupported("no template field for '%s'" % s["tok"])
         d = self.vec_default()
-        sl = p.slot("v%d" % i, [d] + VEC_IDS + VEC_BAD)
+        sl = p.slot("v%d" % i, [d] + self.vec_ids + VEC_BAD)
         isl = None
         fixed_idx = None
         emax = None
@@ -591,11 +622,16 @@ class Builder:
                     vals.append(emax + 1)
                 isl = p.slot("i%d" % i, vals)
         fbits = self.fields[field]["bits"]
+        braces = (re.match(r"^(ld|st)[1-4]$", self.name) and i == 0) or (self.name in ("tbl", "tbx") and i == 1)
 
-        def fn(ctx, r, s=s, sl=sl, isl=isl, field=field, fixed_idx=fixed_idx, emax=emax, fbits=fbits):
+        def fn(ctx, r, s=s, sl=sl, isl=isl, field=field, fixed_idx=fixed_idx, emax=emax, fbits=fbits, braces=braces):
             v = ctx[sl]
             iv = fixed_idx if fixed_idx is not None else (ctx[isl] if isl else None)
             e, t = self.vv_text(s, ctx, v, iv)
+            if braces:
+                # the db spells one-register lists without braces (ld1 Vx.B[#idx], tbl Vd, Vn.16B, Vm)
+                m = re.match(r"^(v\d+\.\w+)(\[\d+\])?$", t)
+                t = "{ " + m.group(1) + " }" + (m.group(2) or "")
             r.add(e, None if vec_bad(v) else t)
             r.expect.append((field, v & ((1 << fbits) - 1)))
             if vec_bad(v):
@@ -626,7 +662,7 @@ class Builder:
                     if v == "zr":
                         vj = "zr" if j == 0 else j - 1
                     else:
-                        vj = (v + j) if v <= 31 else ((v + j) & 31)
+                        vj = v if j == 0 else ((v + j) if v <= 31 else ((v + j) & 31))
                         if v <= 30 and vj == 31:
                             vj = "zr"
                     r.add(gp_name(w, vj, False), gp_name(w, vj, True))
@@ -706,7 +742,24 @@ class Builder:
             vals = [(kinds[0], 3)] + [(k, a) for k in kinds for a in (0, 1, size - 1, size)] + [(other[0], 1)] + [None]
         if not s["opt"]:
             vals = [v for v in vals if v is not None]
+        elif self.name in ("cmp", "cmn") and s["amounts"]:
+            vals = [None] + vals
         sl = p.slot("sh%d" % i, vals)
+        modimm = self.immfn in ("ASimdMovPImm", "ASimdMovNImm", "ASimdLogicalImm")
+
+        def ok(v):
+            """Arm ARM: which shift/extend kinds and amounts the instruction class has."""
+            kind, amt = v
+            if modimm:
+                return True                     # judged together with the immediate (simd_modimm)
+            if ops == ["extend"]:
+                return (kind in EXT_KINDS or kind == "lsl") and 0 <= amt <= 4
+            if s["amounts"]:
+                return kind == ops[0] and amt in [int(x) for x in s["amounts"].split("|")]
+            if ops == ["lsl"] and self.name in ("movz", "movn", "movk"):
+                return kind == "lsl" and amt % 16 == 0 and 0 <= amt < size
+            kinds = ["lsl", "lsr", "asr", "ror"] if ops == ["sop"] else ops
+            return kind in kinds and 0 <= amt < size
 
         def fn(ctx, r, sl=sl):
             v = ctx[sl]
@@ -714,6 +767,8 @@ class Builder:
                 return
             t = "%s #%d" % v
             r.add(t, t)
+            if not ok(v):
+                r.ev.append("shift")
         p.renderers.append(fn)
 
     # -- memory operand ------------------------------------------------------------------------------------------------
@@ -732,7 +787,7 @@ class Builder:
             p.renderers.append(fn)
             return
         d = self.gp_default() + 6
-        bsl = p.slot("mb", [d] + GP_IDS + ["sp", "zr"] + GP_BAD)
+        bsl = p.slot("mb", [d] + self.gp_ids + ["sp", "zr"] + GP_BAD)
         msl = None
         if len(s["modes"]) > 1:
             msl = p.slot("mm", s["modes"])
@@ -750,7 +805,7 @@ class Builder:
                 osl = p.slot("off", self.off_values(cls))
         if s["index"] is not None:
             di = self.gp_default() + 10
-            isl = p.slot("mi", [di] + GP_IDS + ["zr", "sp"] + GP_BAD)
+            isl = p.slot("mi", [di] + self.gp_ids + ["zr", "sp"] + GP_BAD)
         if s["ext"] is not None:
             amt = s["ext"]["amount"]
             kinds = ["lsl", "uxtw", "sxtw", "sxtx"]
@@ -787,6 +842,8 @@ class Builder:
                     if not self.off_valid(cls, mode, o):
                         r.ev.append("off")
                 e_in.append("#%d" % o)
+                if mode in ("pre", "post") and o == 0:
+                    r.flags["zero_wb"] = True     # write-back by zero: same architectural effect as no write-back
                 if mode == "post":
                     post_ref = "#%d" % o
                 else:
@@ -816,7 +873,15 @@ class Builder:
                         r.ref_ok = False
                 if ext is not None:
                     e_in.append("%s #%d" % ext)
-                    r_in.append("%s #%d" % ext)
+                    # AsmJit's Mem cannot tell "lsl #0" from "no shift" (and "uxtw #0" from "uxtw"): the operand built
+                    # here IS the amount-less one, so that is the text it denotes
+                    if ext[1] != 0:
+                        r_in.append("%s #%d" % ext)
+                    elif ext[0] != "lsl":
+                        r_in.append(ext[0])
+                    amt = s["ext"]["amount"]
+                    if ext[0] not in ("lsl", "uxtw", "sxtw", "sxtx") or ext[1] not in (0, amt):
+                        r.ev.append("shift")
             if br is None:
                 r.ref_ok = False
             suffix_e = {"off": "", "pre": "!", "post": "@"}[mode]
@@ -940,7 +1005,7 @@ class ImmKinds:
         self.s = s
         self.name = s["name"]
 
-    def simple(self, values, valid, field=None, enc=None, fmt=None, fmt_ref=None, resolve=None):
+    def simple(self, values, valid, field=None, enc=None, fmt=None, fmt_ref=None, resolve=None, hook=None):
         """One slot; `valid(v, ctx)` is the reference predicate, `enc(v, ctx)` the expected field value.
         resolve(v, ctx) turns a symbolic alphabet entry ('max', 'max+1', ...) into the number for this context."""
         p = self.p
@@ -960,6 +1025,8 @@ class ImmKinds:
                 r.ev.append("imm")
             elif field is not None and enc is not None:
                 r.expect.append((field, enc(v, ctx)))
+            if hook is not None:
+                hook(v, ctx, r)
         p.renderers.append(fn)
         return sl
 
@@ -1046,8 +1113,8 @@ class ImmKinds:
                         0xFF00FF00FF00FF00, 0x0003C0000003C000, 0xFFFF0000FFFF0000, 0xE000000000000007, 0x00000000FFFFFFFF,
                         0, 0xFFFFFFFFFFFFFFFF, 0x12345, 0x100000001, 5]
             if iname == "mov":
-                # MOV (bitmask immediate) is only the preferred form when no MOVZ/MOVN does it; keep to those
-                vals = [v for v in vals if not movw_ok(v, size)]
+                self.mov_imm(vals + [0x1234, 0xFFFF0000, (1 << size) - 1 - 0x1234, 0x123456789ABC], size)
+                return
             self.simple(vals, lambda v, c: 0 <= v < (1 << size) and is_logical_imm(v, size))
             return
         if immfn in ("ImmWide", "ImmWideInv") and iname == "mov":
@@ -1056,8 +1123,7 @@ class ImmKinds:
                 vals = [0x1234, 0, 0xFFFF, 0x12340000, 0xFFFF0000] + ([0x123400000000, 0xFFFF000000000000] if size == 64 else [])
             else:
                 vals = [m ^ 0x1234, m, m ^ 0x12340000] + ([m ^ 0x123400000000, m ^ 0xFFFF000000000000] if size == 64 else [])
-                vals = [v for v in vals if not movz_ok(v, size)]
-            self.simple(vals, lambda v, c: True)
+            self.mov_imm(vals + [0xFF00FF00, 0x12345], size)
             return
         if iname in ("movz", "movn", "movk") and nm == "imm":
             self.simple([0x1234, 0, 0xFFFF, 0x10000, -1], lambda v, c: 0 <= v <= 0xFFFF, "imm", lambda v, c: v)
@@ -1144,7 +1210,6 @@ class ImmKinds:
                             else [(0, 8, 3, 0), (0, 8, 7, 0), (4, 8, 3, 0), (4, 8, 7, 0), (6, 8, 7, 0), (4, 8, 3, 4), (4, 8, 7, 6)]),
             }
             vals = tables[nm]
-            has_reg = len(b.specs) == 2
             sl = self.p.slot("imm%d" % self.i, vals)
 
             def fn(ctx, r, sl=sl):
@@ -1157,7 +1222,7 @@ class ImmKinds:
                     if f in b.fields:
                         r.expect.append((f, x))
             self.p.renderers.append(fn)
-            b._sys_generic = True
+            self.p.sys_generic = True
             return
         if nm in ("Cn", "Cm", "CRn", "CRm"):
             field = {"Cn": "CRn", "Cm": "CRm"}.get(nm, nm)
@@ -1188,16 +1253,10 @@ class ImmKinds:
             self.p.renderers.append(fn)
             return
         if nm == "imm" and iname == "msr":
-            ps = getattr(b, "_pstate_slot", None)
-
             def valid(v, c):
-                if not (0 <= v <= 15):
-                    return False
-                if ps and c[ps] not in ((3, 6), (3, 7), (0, 5)):
-                    return v <= 1         # PAN/UAO/DIT/SSBS/TCO take #0 / #1 only
-                if ps and c[ps] == (0, 5):
-                    return v <= 1
-                return True
+                # Arm ARM MSR (immediate): CRm is a free 4-bit field for PAN/UAO/SPSel/SSBS/DIT/TCO/DAIFSet/DAIFClr (only
+                # CRm<0> is *used* by some of them; assemblers may be stricter, the encoding exists)
+                return 0 <= v <= 15
             self.simple([1, 0, 15, 16, -1], valid, "imm", lambda v, c: v)
             return
         if nm == "targets":
@@ -1241,6 +1300,27 @@ class ImmKinds:
             return
         raise Unsupported("immediate '%s' (%s)" % (s["tok"], immfn or "no imm function"))
 
+    def mov_imm(self, vals, size):
+        """MOV Rd, #imm: an alias with several legal single-instruction encodings (MOVZ, MOVN, ORR-immediate, 32- or
+        64-bit).  Judged by value: flags['movimm'] = (requested register, 64-bit value); 'encodable' (reference) iff one
+        of the three instructions can produce the value."""
+        def single(v):
+            v &= (1 << size) - 1
+            if movw_ok(v, size) or is_logical_imm(v, size):
+                return True
+            if size == 64 and v < (1 << 32) and (movw_ok(v, 32) or is_logical_imm(v, 32)):
+                return True       # a 32-bit MOVZ/MOVN/ORR zero-extends into the X register
+            return False
+
+        def hook(v, ctx, r):
+            reg = None
+            for k, x in ctx.items():
+                if k.startswith("r"):
+                    reg = x
+                    break
+            r.flags["movimm"] = (reg, v & ((1 << size) - 1), size, single(v))
+        self.simple(vals, lambda v, c: True, hook=hook)
+
     def no_shift(self, ctx):
         for k, v in ctx.items():
             if k.startswith("sh"):
@@ -1269,50 +1349,72 @@ class ImmKinds:
                     return v
             return None
 
-        def valid(v, ctx):
+        def request(v, ctx):
+            """(class, q, 64-bit pattern) the operands ask for, or None when they do not denote a constant at all."""
             a = arr(ctx)
             es = ESIZE[a[-1].upper()]
             sh = shift_of(ctx)
+            q = 1 if a.upper() in ("16B", "8H", "4S", "2D") else 0
+            if v < 0 and es == 64:
+                v &= (1 << 64) - 1        # two's complement of the 64-bit pattern
             if v < 0:
-                return False
+                return None
+            cls = {"movi": "mov", "mvni": "mov", "orr": "orr", "bic": "bic"}[iname]
             if es == 64:
-                if iname != "movi" or sh is not None and sh != ("lsl", 0):
-                    return False
-                return v < (1 << 64) and all(((v >> (8 * i)) & 0xFF) in (0, 0xFF) for i in range(8))
-            if es == 8:
-                if iname != "movi":
-                    return False
-                return v <= 0xFF and (sh is None or sh == ("lsl", 0))
-            if sh is None:
-                if v == 0:
-                    return True
-                for k in range(0, es, 8):
-                    if v & ~(0xFF << k) == 0:
-                        return True
-                return False
-            if v > 0xFF:
-                return False
-            if sh[0] == "lsl":
-                return sh[1] % 8 == 0 and sh[1] < es
-            if sh[0] == "msl":
-                return es == 32 and sh[1] in (8, 16) and iname in ("movi", "mvni")
-            return False
+                if sh is not None and sh != ("lsl", 0):
+                    return None
+                if v >= (1 << 64) or cls != "mov":
+                    return None
+                lane = v
+            elif sh is None:
+                lane = v
+            else:
+                if v > 0xFF:
+                    return None
+                if sh[0] == "lsl":
+                    if sh[1] % 8 or sh[1] >= es:
+                        return None
+                    lane = v << sh[1]
+                elif sh[0] == "msl":
+                    if es != 32 or sh[1] not in (8, 16) or cls != "mov":
+                        return None
+                    lane = (v << sh[1]) | ((1 << sh[1]) - 1)
+                else:
+                    return None
+            if lane >= (1 << es):
+                return None
+            pat = 0
+            for k in range(64 // es):
+                pat |= lane << (k * es)
+            if iname == "mvni":
+                pat = ~pat & ((1 << 64) - 1)
+            return cls, q, pat
+
+        def valid(v, ctx):
+            from . import a64ref
+            rq = request(v, ctx)
+            return rq is not None and rq[2] in a64ref.modimm_expressible(rq[0])
 
         def vals_for():
-            return [0xAB, 0, 0xFF, 0x100, 0x1FF, 0xAB00, "mask", "badmask", -1]
+            return ["dflt", 0, 0xFF, 0x100, 0x1FF, 0xAB00, "mask", "badmask", -1]
 
         def res(v, ctx):
             a = arr(ctx)
             es = ESIZE[a[-1].upper()]
+            if v == "dflt":
+                return 0xFF00FF0000FFFF00 if es == 64 else 0xAB
             if v == "mask":
-                return 0xFF00FF0000FFFF00 if es == 64 else 0x7F
+                return 0x00FF00FFFF0000FF if es == 64 else 0x7F
             if v == "badmask":
                 return 0x0123000000000000 if es == 64 else 0x101
             return v
 
         def f_ref(v, ctx):
             return "#0x%x" % v if v >= 0 else "#-%d" % -v
-        self.simple(vals_for(), valid, resolve=res, fmt=f_ref, fmt_ref=f_ref)
+        def hook(v, ctx, r):
+            # value leg: the constant (class, Q, 64-bit pattern) the emitted word must materialise; None = no such constant
+            r.flags["modimm"] = request(v, ctx) if valid(v, ctx) else None
+        self.simple(vals_for(), valid, resolve=res, fmt=f_ref, fmt_ref=f_ref, hook=hook)
 
 
 def movz_ok(v, size):
